@@ -106,7 +106,7 @@ package evm
 //@   requires ctx.Tx.Type == 6 || (ctx.Tx.Type == 1 && ctx.Receiver.Code != nil)
 //@   requires ctx.Sender.Nonce == ctx.Tx.Nonce
 //@   modifies everything
-//@   preserves Trx.*, TrxContext.Tx, TrxContext.Sender, TrxContext.Receiver, TrxContext.Exec, TrxContext.ChainID, TrxContext.AcctHandler, TrxContext.GovHandler, Account.Balance, govGasPrice, govMinTrxGas
+//@   preserves feeSumObj, u(feeSumObj), govPriceObj, u(govPriceObj), RigoApp.*, BlockContext.*, Config.*, GovParams.gasPrice, Trx.*, TrxContext.Tx, TrxContext.Sender, TrxContext.Receiver, TrxContext.Exec, TrxContext.ChainID, TrxContext.AcctHandler, TrxContext.GovHandler, Account.Balance, govGasPrice, govMinTrxGas
 //@   ensures wf_ctx(ctx) && tx_same(ctx.Tx)
 //@   ensures result == nil && ctx.Exec ==> ctx.Sender.Nonce == old(ctx.Sender.Nonce) + 1                      [C04,C17]
 //@   ensures result != nil ==> ctx.Sender.Nonce == old(ctx.Sender.Nonce) && u(ctx.Sender.Balance) == old(u(ctx.Sender.Balance))   [C04,C05,C17]
